@@ -114,8 +114,13 @@ pub fn check_ontology(ont: &Ontology, r: &RefOnt, algs: &[Alg], counters: &mut (
 
 pub fn check_ontology_strided(ont: &Ontology, r: &RefOnt, algs: &[Alg], counters: &mut (u64, u64), stride: usize) -> V {
     let ids: Vec<u32> = r.terms.keys().copied().collect();
-    for &a in ids.iter().step_by(stride) {
-        for &b in &ids {
+    let firsts: Vec<u32> = ids.iter().copied().step_by(stride).collect();
+    check_ontology_pairs(ont, r, algs, counters, &firsts, &ids)
+}
+
+pub fn check_ontology_pairs(ont: &Ontology, r: &RefOnt, algs: &[Alg], counters: &mut (u64, u64), firsts: &[u32], seconds: &[u32]) -> V {
+    for &a in firsts {
+        for &b in seconds {
             let (ta, tb) = (ont.hpo(a).unwrap(), ont.hpo(b).unwrap());
             for &alg in algs {
                 for kind in KINDS {
@@ -282,7 +287,8 @@ pub fn run(ctx: &mut Ctx) {
             };
             let mut counters = (0u64, 0u64);
             let stride = if n > 70 { 3 } else { 1 };
-            match guard(|| check_ontology_strided(&ont, &r, &ALGS, &mut counters, stride)) {
+            let sel: Vec<u32> = crate::props::common::selected_positions(n).into_iter().map(|k| ids[k]).collect();
+            match guard(|| if n > 120 { check_ontology_pairs(&ont, &r, &ALGS, &mut counters, &sel, &sel) } else { check_ontology_strided(&ont, &r, &ALGS, &mut counters, stride) }) {
                 Ok(None) => {}
                 Ok(Some((site, sig, det))) => ctx.violation(&site, &format!("[large shape] {sig}"), json!({"shape": what, "n_terms": n, "difference": det})),
                 Err(p) => ctx.violation("Similarity::calculate", "[large shape] panics", json!({"shape": what, "observed": p})),
@@ -365,6 +371,59 @@ pub fn run(ctx: &mut Ctx) {
             ctx.validateds(counters.0);
             ctx.nontrivials(counters.1);
             ctx.sample(|| json!({"dag": d.describe(), "ids": ids}));
+        }
+    }
+    // ---- very many records: information contents far below 1e-3 (a term carrying all but one of 30 000 genes)
+    // are still information contents - no tolerance may turn them into zero
+    {
+        ctx.space("builder/many-records", "6 terms (1; 2, 6 below 1; 3, 4 below 2; 5 below 3 and 4) with 30 000 genes and 20 000 OMIM diseases, all but one of each on HP:2 (IC about 3e-5), thousands on 3, 4, 5; all 36 ordered pairs x 8 algorithms x 3 kinds");
+        if ctx.take() {
+            ctx.state();
+            let mut f = Facts::default();
+            for t in 1..=6u32 {
+                f.terms.push(Facts::term(t, &format!("T{t}")));
+            }
+            f.edges = vec![(2, 1), (6, 1), (3, 2), (4, 2), (5, 3), (5, 4)];
+            let ng = 30_000u32;
+            for g in 0..ng - 1 {
+                f.anns.push(Facts::ann(Kind::Gene, g, "G", Some(2)));
+                if g < 10_000 {
+                    f.anns.push(Facts::ann(Kind::Gene, g, "G", Some(3)));
+                } else if g < 20_000 {
+                    f.anns.push(Facts::ann(Kind::Gene, g, "G", Some(4)));
+                }
+                if g % 300 == 0 {
+                    f.anns.push(Facts::ann(Kind::Gene, g, "G", Some(5)));
+                }
+            }
+            f.anns.push(Facts::ann(Kind::Gene, ng - 1, "G", Some(6)));
+            let nd = 20_000u32;
+            for d in 0..nd - 1 {
+                f.anns.push(Facts::ann(Kind::Omim, d, "D", Some(2)));
+                if d < 5_000 {
+                    f.anns.push(Facts::ann(Kind::Omim, d, "D", Some(5)));
+                }
+            }
+            f.anns.push(Facts::ann(Kind::Omim, nd - 1, "D", Some(6)));
+            f.anns.push(Facts::ann(Kind::Orpha, 1, "O1", Some(3)));
+            f.anns.push(Facts::ann(Kind::Orpha, 2, "O2", Some(6)));
+            let r = RefOnt::derive(&f);
+            ctx.transitions(f.n_steps() + 36 * 24);
+            match drive::build(&f, Mode::Minimal) {
+                Err(e) => ctx.violation("Builder", "[builder] construction fails on valid facts", json!({"genes": ng, "omim": nd, "observed": e})),
+                Ok(ont) => {
+                    let mut counters = (0u64, 0u64);
+                    match guard(|| check_ontology(&ont, &r, &ALGS, &mut counters)) {
+                        Ok(None) => {}
+                        Ok(Some((site, sig, det))) => ctx.violation(&site, &format!("[many records] {sig}"), json!({"layout": "30 000 genes / 20 000 OMIM diseases, all but one on HP:2", "difference": det})),
+                        Err(p) => ctx.violation("Similarity::calculate", "[many records] panics", json!({"observed": p})),
+                    }
+                    ctx.execs(counters.0);
+                    ctx.validateds(counters.0);
+                    ctx.nontrivials(counters.1);
+                }
+            }
+            ctx.sample(|| json!({"genes": ng, "omim": nd, "terms": 6}));
         }
     }
     // ---- sequences of ontologies built one after the other at the same address (scores must not depend on
